@@ -136,9 +136,14 @@ impl StateMachine<'_> {
         utils::path::relativize_path_maybe(&mut path_or_mode, self.config);
         self.plus_file = path_or_mode;
         self.plus_file_event = file_event;
+        // (a deleted file has its name on the minus side only)
         self.painter
             .set_syntax(get_filename_from_diff_header_line_file_path(
-                &self.plus_file,
+                if self.plus_file == "/dev/null" {
+                    &self.minus_file
+                } else {
+                    &self.plus_file
+                },
             ));
         self.current_file_pair = Some((self.minus_file.clone(), self.plus_file.clone()));
 
